@@ -723,8 +723,8 @@ def main():
         run_corpus_case(ck, batch, c)
     batch.flush()
     thorough = ck.tier == "thorough"
-    explore(ck, ck.budget(400, 3500), 5000 if thorough else 400, 6 if thorough else 5, 3 if thorough else 2, use_model,
-            n_large=12 if thorough else 3)
+    explore(ck, ck.budget(400, 2500), 5000 if thorough else 400, 6 if thorough else 5, 3 if thorough else 2, use_model,
+            n_large=8 if thorough else 3)
     ck.exhaustive = False
     ck.notes.append(f"all n! shuffles forced for n <= {6 if thorough else 5} build points")
     if ck.broken() and not ck.violations:
